@@ -7282,16 +7282,29 @@ fn eval_block(env: &mut Env, expr_value_is_used: bool, block: &Block) {
 fn eval_break(env: &mut Env, expr_value_is_used: bool) {
     // Pop all the currently evaluating expressions until we are no
     // longer inside the innermost loop.
+    //
+    // The innermost loop is the nearest loop expression whose body
+    // is currently running (`DoneRunBlock`). Loops that occur later
+    // in the same block are also on the expression stack, but they
+    // haven't started yet and are not what we're breaking out of.
     while let Some((expr_state, expr)) = env.current_frame_mut().exprs_to_eval.pop() {
+        let is_running_loop = matches!(
+            expr_state,
+            ExpressionState::PartiallyEvaluated(BlockState::DoneRunBlock)
+        );
+
         match &expr.expr_ {
-            Expression_::While(_, _) => {
+            Expression_::While(_, _) if is_running_loop => {
+                // Pop the bindings block of the loop body.
+                env.current_frame_mut().bindings.pop_block();
+
                 env.current_frame_mut()
                     .exprs_to_eval
                     .push((ExpressionState::EvaluatedSubexpressions, Rc::clone(&expr)));
 
                 break;
             }
-            Expression_::ForIn(_, _, _) => {
+            Expression_::ForIn(_, _, _) if is_running_loop => {
                 // We're exiting the loop early, we need to follow the
                 // pattern of `eval_for_in` and maintain stack
                 // discipline for values pushed for the loop body.
@@ -7300,26 +7313,26 @@ fn eval_break(env: &mut Env, expr_value_is_used: bool) {
                 env.pop_value()
                     .expect("Index used by `for` should be present");
 
+                // The bindings block of the loop body is popped when
+                // the loop reaches EvaluatedSubexpressions.
                 env.current_frame_mut()
                     .exprs_to_eval
                     .push((ExpressionState::EvaluatedSubexpressions, Rc::clone(&expr)));
 
                 break;
             }
-            _ => {
+            Expression_::If(_, _, _) | Expression_::Match(_, _) | Expression_::Try(_, _, _) => {
                 // We're exiting a block that wasn't part of a loop
                 // (i.e. a match case or an if/else block), so we
                 // should pop the bindings block here too.
-                if matches!(
-                    expr_state,
-                    ExpressionState::PartiallyEvaluated(BlockState::DoneRunBlock)
-                ) {
+                if matches!(expr_state, ExpressionState::EvaluatedSubexpressions) {
                     env.current_frame_mut().bindings.pop_block();
                 }
 
                 // TODO: this needs to clean up any items pushed to the value stack.
                 // E.g. in `1 + break`.
             }
+            _ => {}
         }
     }
 
@@ -7331,17 +7344,31 @@ fn eval_break(env: &mut Env, expr_value_is_used: bool) {
 
 fn eval_continue(env: &mut Env) {
     // Pop all the currently evaluating expressions until we are back
-    // at the loop.
+    // at the innermost running loop (see `eval_break`).
     while let Some((expr_state, expr)) = env.current_frame_mut().exprs_to_eval.pop() {
-        if matches!(
-            expr.expr_,
+        match &expr.expr_ {
             Expression_::While(_, _) | Expression_::ForIn(_, _, _)
-        ) {
-            // TODO: this needs to clean up any items pushed to the value stack.
-            // E.g. in `1 + continue`.
+                if matches!(
+                    expr_state,
+                    ExpressionState::PartiallyEvaluated(BlockState::DoneRunBlock)
+                ) =>
+            {
+                // TODO: this needs to clean up any items pushed to the value stack.
+                // E.g. in `1 + continue`.
 
-            env.push_expr_to_eval(expr_state, expr);
-            break;
+                // The loop pops the bindings block of its body
+                // before starting the next iteration.
+                env.push_expr_to_eval(expr_state, expr);
+                break;
+            }
+            Expression_::If(_, _, _) | Expression_::Match(_, _) | Expression_::Try(_, _, _) => {
+                // Leaving an if/else block or a match case early:
+                // pop its bindings block.
+                if matches!(expr_state, ExpressionState::EvaluatedSubexpressions) {
+                    env.current_frame_mut().bindings.pop_block();
+                }
+            }
+            _ => {}
         }
     }
 }
